@@ -169,11 +169,13 @@ class ProtobufReader(Converter):
             args = []
             payload = None
 
-            fluent = msg.list.pop(0)
+            # the message is only read (popping the head would destroy it for a
+            # second conversion of the same message)
+            fluent = msg.list[0]
             if fluent.kind == proto.ExpressionKind.Value("FLUENT_SYMBOL"):
                 payload = self.convert(fluent.atom, problem)
 
-            args.extend([self.convert(m, problem) for m in msg.list])
+            args.extend([self.convert(m, problem) for m in msg.list[1:]])
             if payload is not None:
                 return problem.environment.expression_manager.FluentExp(
                     payload, tuple(args)
@@ -195,13 +197,14 @@ class ProtobufReader(Converter):
             args = []
             payload = None
 
-            symbol = msg.list.pop(0)
+            symbol = msg.list[0]
+            operands = msg.list[1:]  # the message itself is left untouched
             if symbol.kind == proto.ExpressionKind.Value("FUNCTION_SYMBOL"):
                 node_type = op_to_node_type(symbol.atom.symbol)
 
             if node_type in [OperatorKind.EXISTS, OperatorKind.FORALL]:
-                variables = msg.list[:-1]
-                quantified_expression = msg.list[-1]
+                variables = operands[:-1]
+                quantified_expression = operands[-1]
                 args.append(self.convert(quantified_expression, problem))
                 payload = tuple(
                     [self.convert(var, problem).variable() for var in variables]
@@ -211,7 +214,7 @@ class ProtobufReader(Converter):
                     f"Unsupported IsPresent expression not in a function application: {msg}"
                 )
             else:
-                args.extend([self.convert(m, problem) for m in msg.list])
+                args.extend([self.convert(m, problem) for m in operands])
 
             assert node_type is not None
 
